@@ -93,15 +93,27 @@ fn nd_texture(tex_header: &[u8], mips: &[Vec<(Vec<u8>, NMode)>]) -> (Vec<u8>, Ve
     (info, expect)
 }
 /// sections in storage order: stack, runtime, then per LOD vertex and index (edge geometry absent); each section is a list of blocks
-fn nd_model(stack: &[(Vec<u8>, NMode)], runtime: &[(Vec<u8>, NMode)], vertex: &[Vec<(Vec<u8>, NMode)>; 3], index: &[Vec<(Vec<u8>, NMode)>; 3], num_lods: u8) -> (Vec<u8>, Vec<u8>) {
+fn nd_model(stack: &[(Vec<u8>, NMode)], runtime: &[(Vec<u8>, NMode)], vertex: &[Vec<(Vec<u8>, NMode)>; 3], index: &[Vec<(Vec<u8>, NMode)>; 3], num_lods: u8) -> (Vec<u8>, Vec<u8>) { nd_model_stored(stack, runtime, vertex, index, num_lods, 0) }
+/// storage: 0 = sections stored back to back in the canonical order; 1 = a 128-byte hole in front of every section; 2 = the runtime section stored last (after the geometry);
+/// 3 = sections stored in reverse order.  The entry header gives every section its own payload offset, so each layout is a well-formed entry with the same content.
+fn nd_model_stored(stack: &[(Vec<u8>, NMode)], runtime: &[(Vec<u8>, NMode)], vertex: &[Vec<(Vec<u8>, NMode)>; 3], index: &[Vec<(Vec<u8>, NMode)>; 3], num_lods: u8, storage: u8) -> (Vec<u8>, Vec<u8>) {
     // slots of ModelMemorySizes: 0 stack, 1 runtime, 2..4 vertex, 5..7 edge, 8..10 index
     let mut order: Vec<(usize, &[(Vec<u8>, NMode)])> = vec![(0, stack), (1, runtime)];
     for l in 0..3 { order.push((2 + l, &vertex[l])); order.push((8 + l, &index[l])); }
     let (mut unc, mut comp, mut off, mut idx, mut num) = ([0u32; 11], [0u32; 11], [0u32; 11], [0u16; 11], [0u16; 11]);
     let mut payload = vec![]; let mut sizes: Vec<u16> = vec![]; let mut body = vec![]; let mut sec_pos = [0u32; 11]; let mut sec_len = [0u32; 11];
+    let mut stored: Vec<(usize, Vec<u8>)> = vec![];
     for (slot, blocks) in order.iter() {
-        off[*slot] = payload.len() as u32; idx[*slot] = sizes.len() as u16; num[*slot] = blocks.len() as u16; sec_pos[*slot] = 0x44 + body.len() as u32;
-        for (c, m) in blocks.iter() { let b = nd_block(c, *m); sizes.push(b.len() as u16); comp[*slot] += b.len() as u32; unc[*slot] += c.len() as u32; payload.extend_from_slice(&b); body.extend_from_slice(c); sec_len[*slot] += c.len() as u32; }
+        idx[*slot] = sizes.len() as u16; num[*slot] = blocks.len() as u16; sec_pos[*slot] = 0x44 + body.len() as u32;
+        let mut sec = vec![];
+        for (c, m) in blocks.iter() { let b = nd_block(c, *m); sizes.push(b.len() as u16); comp[*slot] += b.len() as u32; unc[*slot] += c.len() as u32; sec.extend_from_slice(&b); body.extend_from_slice(c); sec_len[*slot] += c.len() as u32; }
+        stored.push((*slot, sec));
+    }
+    // the block-size table and the block indices stay in section order; only where each section's blocks sit in the payload changes
+    match storage { 2 => { let rt = stored.remove(1); stored.push(rt); } 3 => stored.reverse(), _ => {} }
+    for (slot, sec) in stored.iter() {
+        if storage == 1 { payload.extend(std::iter::repeat(0xEEu8).take(128)); }
+        off[*slot] = payload.len() as u32; payload.extend_from_slice(sec);
     }
     let mut info = vec![];
     info.extend_from_slice(&0u32.to_le_bytes()); info.extend_from_slice(&3i32.to_le_bytes()); info.extend_from_slice(&(0x44 + body.len() as u32).to_le_bytes());
@@ -154,7 +166,7 @@ fn nd_blocks(content: &[u8], shape: usize, modes: usize) -> Vec<(Vec<u8>, NMode)
     out
 }
 
-//@unit props=C02 label=B tier=quick native=1 fn=sqpack::data::SqPackData::{read_from_offset,read_standard_file,read_texture_file,read_model_file},sqpack::read_data_block,compression::no_header_decompress bound="by execution on temporary dat files: standard entries of 9 lengths (0..40000) x 4 block splits x 4 raw/deflate assignments (stored and fixed-Huffman streams); texture entries with 1..3 mips of 1..4 unevenly sized blocks; model entries with 1..3 LODs and 0..3 blocks per section, incl. LODs with indices but no vertices, vertices but no indices, and an empty middle LOD; entry offsets 0, 128, 0x800"
+//@unit props=C02 label=B tier=quick native=1 fn=sqpack::data::SqPackData::{read_from_offset,read_standard_file,read_texture_file,read_model_file},sqpack::read_data_block,compression::no_header_decompress bound="by execution on temporary dat files: standard entries of 9 lengths (0..40000) x 4 block splits x 4 raw/deflate assignments (stored and fixed-Huffman streams); texture entries with 1..3 mips of 1..4 unevenly sized blocks; model entries with 1..3 LODs and 0..3 blocks per section, incl. LODs with indices but no vertices, vertices but no indices, and an empty middle LOD, and with the sections stored with holes between them, with the runtime section last and in reverse order; entry offsets 0, 128, 0x800"
 //@desc extraction returns exactly the packed bytes: a standard entry the concatenation of its blocks; a texture entry its header followed by every mip block in order; a model entry the synthesized 0x44-byte header (version, stack/runtime sizes, counts, per-LOD vertex/index offsets and sizes describing the reassembled sections) followed by the stack, runtime, vertex and index sections; however the content is split and whether each block is raw or deflated
 #[test]
 fn native_sqpack_reassembly() {
@@ -200,6 +212,18 @@ fn native_sqpack_reassembly() {
             cases += 1;
         }
     }
+    // sections that are not stored back to back in the canonical order: holes between them, runtime section last, reverse order
+    for storage in 1..=3u8 { for shape in 0..4usize { for lods in [1u8, 3] {
+        let sec = |n: usize, s: u32| nd_blocks(&nd_pattern(n, s), (shape + s as usize) % 4, shape + s as usize);
+        let none: Vec<(Vec<u8>, NMode)> = vec![];
+        let vertex = [sec(500 + shape * 40, 1), if lods >= 2 { sec(260, 2) } else { none.clone() }, if lods >= 3 { sec(70 + shape, 3) } else { none.clone() }];
+        let index = [sec(200, 4), if lods >= 2 { sec(100 + shape * 2, 5) } else { none.clone() }, if lods >= 3 { sec(48, 6) } else { none.clone() }];
+        let (entry, expect) = nd_model_stored(&sec(400 + shape * 64, 7), &sec(900 + shape * 129, 8), &vertex, &index, lods, storage);
+        let got = nd_extract(&entry, 128 * shape, "mdl3").expect("model entry with relocated sections extracts");
+        assert!(got[..0x44] == expect[..0x44], "model entry, storage layout {storage} ({lods} LODs, shape {shape}): synthesized header {:02x?} != {:02x?}", &got[..0x44], &expect[..0x44]);
+        assert!(got == expect, "model entry, storage layout {storage} ({lods} LODs, shape {shape}): sections differ ({} vs {} bytes)", got.len(), expect.len());
+        cases += 1;
+    } } }
     println!("NATIVE native_sqpack_reassembly cases={cases}");
 }
 
